@@ -81,10 +81,24 @@ type Step struct {
 }
 
 type Case struct {
-	Kind   string   `json:"kind"` // admissible | mixed | unicode
+	Kind   string   `json:"kind"` // admissible | mixed | unicode | race | auth
 	Steps  []Step   `json:"steps"`
 	Probes []string `json:"probes"`
 	SNIs   []string `json:"snis"`
+	// kind race (gateway.go): after Steps were written one at a time through the real informer / queue / Run loop,
+	// the writes of Burst are issued back to back
+	Burst []Step `json:"burst,omitempty"`
+	// kind auth (gateway.go): the gateway is started with (CP) or without --client-ca-file, Steps are written one at
+	// a time, then every exchange of Reqs goes through the shipped TLS + authentication wiring
+	CP   bool  `json:"cp,omitempty"`
+	Reqs []Req `json:"reqs,omitempty"`
+}
+
+// Req is one TLS connection (SNI) carrying one request (Host) with the client certificate signed by CA Cert (-1: none).
+type Req struct {
+	SNI  string `json:"sni"`
+	Host string `json:"host"`
+	Cert int    `json:"cert"`
 }
 
 const localAddr = "127.0.0.1:6443"
@@ -186,22 +200,32 @@ func mkObj(name string, sp *Spec, rv int) *proxyv1alpha1.UpstreamCluster {
 // mutating call. Reads (Get) and everything else go straight to the real manager.
 type recordingManager struct {
 	clusters.Manager
-	after func()
+	before func() // may be nil
+	after  func()
 }
 
+func (r *recordingManager) pre() {
+	if r.before != nil {
+		r.before()
+	}
+}
 func (r *recordingManager) AddWithKey(k string, c *clusters.ClusterInfo) {
+	r.pre()
 	r.Manager.AddWithKey(k, c)
 	r.after()
 }
 func (r *recordingManager) Add(c *clusters.ClusterInfo) {
+	r.pre()
 	r.Manager.Add(c)
 	r.after()
 }
 func (r *recordingManager) Delete(k string) {
+	r.pre()
 	r.Manager.Delete(k)
 	r.after()
 }
 func (r *recordingManager) DeleteWithStop(k string) {
+	r.pre()
 	r.Manager.DeleteWithStop(k)
 	r.after()
 }
@@ -527,7 +551,16 @@ func canonObs(o Obs) string {
 	return rig.Canon([]interface{}{o.Requeue, o.State, o.Mid, o.Get, o.Req, o.TLS, o.Verify})
 }
 
+// counting: the histogram is only fed by the first run of a case, not by the re-runs of the shrinker
+var counting bool
+
 func runCase(c *rig.Ctx, cs Case) (v verdict) {
+	switch cs.Kind {
+	case "race":
+		return runRace(c, cs, counting)
+	case "auth":
+		return runAuth(c, cs, counting)
+	}
 	ex := execute(cs)
 	v.Obs, v.Settled = ex.Obs, ex.Settled
 	if ex.Class != "" {
@@ -684,6 +717,12 @@ func shrink(c *rig.Ctx, cs Case, class string) Case {
 			}
 		}
 	}
+	if len(cs.Burst) > 0 {
+		cs.Burst = rig.ShrinkList(cs.Burst, func(l []Step) bool { x := cs; x.Burst = l; return failsSame(c, x, class) })
+	}
+	if len(cs.Reqs) > 0 {
+		cs.Reqs = rig.ShrinkList(cs.Reqs, func(l []Req) bool { x := cs; x.Reqs = l; return failsSame(c, x, class) })
+	}
 	cs.Probes = rig.ShrinkList(cs.Probes, func(l []string) bool { x := cs; x.Probes = l; return failsSame(c, x, class) })
 	cs.SNIs = rig.ShrinkList(cs.SNIs, func(l []string) bool { x := cs; x.SNIs = l; return failsSame(c, x, class) })
 	return cs
@@ -691,15 +730,23 @@ func shrink(c *rig.Ctx, cs Case, class string) Case {
 
 func cloneCase(cs Case) Case {
 	x := cs
-	x.Steps = make([]Step, len(cs.Steps))
-	for i, s := range cs.Steps {
-		x.Steps[i] = s
-		if s.Spec != nil {
-			sp := *s.Spec
-			sp.Aliases = append([]string{}, s.Spec.Aliases...)
-			x.Steps[i].Spec = &sp
+	cp := func(l []Step) []Step {
+		if l == nil {
+			return nil
 		}
+		out := make([]Step, len(l))
+		for i, s := range l {
+			out[i] = s
+			if s.Spec != nil {
+				sp := *s.Spec
+				sp.Aliases = append([]string{}, s.Spec.Aliases...)
+				out[i].Spec = &sp
+			}
+		}
+		return out
 	}
+	x.Steps, x.Burst = cp(cs.Steps), cp(cs.Burst)
+	x.Reqs = append([]Req(nil), cs.Reqs...)
 	return x
 }
 
@@ -710,7 +757,12 @@ func record(c *rig.Ctx, cs Case, v verdict) {
 // readable adds a plain-text rendering next to the hex fields (ignored on replay).
 func readable(cs Case) interface{} {
 	var txt []string
-	for _, s := range cs.Steps {
+	all := append([]Step{}, cs.Steps...)
+	for _, s := range cs.Burst {
+		s.K = "burst-" + s.K
+		all = append(all, s)
+	}
+	for _, s := range all {
 		t := s.K + " " + fmt.Sprintf("%q", rig.UnHex(s.Name))
 		if s.Ev > 0 {
 			t += fmt.Sprintf(" (event object: %d versions old)", s.Ev)
@@ -733,7 +785,17 @@ func readable(cs Case) interface{} {
 		}
 		txt = append(txt, t)
 	}
-	return map[string]interface{}{"kind": cs.Kind, "steps": cs.Steps, "probes": cs.Probes, "snis": cs.SNIs, "text": txt}
+	for _, r := range cs.Reqs {
+		txt = append(txt, fmt.Sprintf("exchange sni=%q host=%q client-cert-ca=%d", rig.UnHex(r.SNI), rig.UnHex(r.Host), r.Cert))
+	}
+	out := map[string]interface{}{"kind": cs.Kind, "steps": cs.Steps, "probes": cs.Probes, "snis": cs.SNIs, "text": txt}
+	if len(cs.Burst) > 0 {
+		out["burst"] = cs.Burst
+	}
+	if cs.Kind == "auth" {
+		out["cp"], out["reqs"] = cs.CP, cs.Reqs
+	}
+	return out
 }
 
 // classify a history for the evidence
@@ -794,8 +856,13 @@ func classify(c *rig.Ctx, cs Case, v verdict, settled []bool) (nontrivial bool, 
 }
 
 func one(c *rig.Ctx, cs Case, origin string) {
+	counting = true
 	v := runCase(c, cs)
+	counting = false
 	nt, bucket := classify(c, cs, v, v.Settled)
+	if cs.Kind == "race" || cs.Kind == "auth" {
+		nt = true
+	}
 	if origin != "" {
 		bucket = origin
 	}
@@ -827,7 +894,7 @@ func main() {
 	initMaterial()
 
 	rig.Main("C10", func(c *rig.Ctx) {
-		c.SetRule("a history of 12-40 steps (lister write `set`/`unset`, handler invocation `sync`) over 3-5 clusters and a 6-name universe: " +
+		c.SetRule("[gateway level: race = burst of colliding writes through the real informer/queue/Run() judged at quiescence with invB; auth = 10-17 TLS exchanges through the shipped options->ApplyTo->WithAuthentication / SecureServingInfo.Serve wiring, with and without --client-ca-file] a history of 12-40 steps (lister write `set`/`unset`, handler invocation `sync`) over 3-5 clusters and a 6-name universe: " +
 			"server names equal to other clusters' names, case variants, duplicates, own name, names with a port, IP literals, empty names, " +
 			"moves A->B in both orders, delete/re-create, queued (unsynced) writes, retries, objects on which Sync fails; three streams: " +
 			"admissible (every object passes the real plug-in's conflict rule and is synced at once), mixed (conflicts, delays), unicode (non-ASCII / invalid UTF-8 names). " +
@@ -864,8 +931,17 @@ func main() {
 			}
 			one(c, cs, "corpus")
 		}
-		n := c.Budget(800, 12000)
+		// gateway level: real informer + queue + Run() (race), shipped TLS / authentication wiring (auth)
 		start := time.Now()
+		for i, n := 0, c.Budget(40, 320); i < n && c.NFailures() < 3; i++ {
+			one(c, genRace(c.Rng), "")
+		}
+		for i, n := 0, c.Budget(50, 400); i < n && c.NFailures() < 3; i++ {
+			one(c, genAuth(c.Rng), "")
+		}
+		c.SetExtra("gateway_cases_wall_s", time.Since(start).Seconds())
+		n := c.Budget(700, 12000)
+		start = time.Now()
 		for i := 0; i < n && c.NFailures() < 3; i++ {
 			kind := "mixed"
 			switch i % 10 {
